@@ -894,6 +894,7 @@ mutual
     | .while_ e b => coreE e && coreB b
     | .if_ e b .nil .none => coreE e && coreB b
     | .forEach v sv b => v != "self" && sv != "self" && coreB b
+    | .selFromW card v _ w => v != "self" && lowerStr card == card && coreE w
     | s => coreS0 s
   def coreB : Block → Bool
     | .nil => true
@@ -1032,6 +1033,60 @@ theorem fePre_ok_mono {fc : FCtx} {v sv : String} {M : St} (hok : (fePre fc v sv
     rw [he] at hok; simp at hok; exact hok.1
   · rw [h.2] at hok; simp [newVar_ok] at hok; exact hok.1.1
 
+/-- `accept_SelectFromWhereNode` after the ACT_SMT: the variable looked up, the where clause accepted in the scope of the
+    class (`selected`), the variable declared afterwards when it was not visible -/
+def swPre (fc : FCtx) (v kl : String) (w : Expr) (many : Bool) (M : St) : (Nat × St) × Nat :=
+  let found := lookupVar fc v M
+  let wv := buildExpr fc w (pushScope (.obj kl) found.2)
+  let s2 := popScope wv.2
+  let x := match found.1 with
+    | some var => (var, s2)
+    | none => if many then newVar v (fun i => .vins i kl) s2 else newVar v (fun i => .vint i kl) s2
+  (x, wv.1)
+
+theorem buildStmt_selFromW (fc : FCtx) (prev : Option Nat) (card v kl : String) (w : Expr) (st : St) :
+    buildStmt fc prev (.selFromW card v kl w) st = (st.pop.length,
+      ((swPre fc v kl w (isMany card) ((newSmt prev st).2.guard (v != "self" && fc.classes.contains kl))).1.2.new
+        (.fiw st.pop.length (swPre fc v kl w (isMany card) ((newSmt prev st).2.guard (v != "self" && fc.classes.contains kl))).1.1
+          kl (lowerStr card)
+          (swPre fc v kl w (isMany card) ((newSmt prev st).2.guard (v != "self" && fc.classes.contains kl))).2)).2) := by
+  simp only [buildStmt, swPre, newSmt_fst]
+  first | rfl | (congr 2 <;> (split <;> rfl))
+
+theorem swPre_cases {fc : FCtx} {v kl : String} {w : Expr} {many : Bool} {M : St}
+    (hok : (swPre fc v kl w many M).1.2.ok = true) (hv : v ≠ "self") :
+    (buildExpr fc w (pushScope (.obj kl) M)).2.ok = true ∧
+    ((∃ xv, findSym M.scopes v = some xv ∧ swPre fc v kl w many M =
+        ((xv, popScope (buildExpr fc w (pushScope (.obj kl) M)).2), (buildExpr fc w (pushScope (.obj kl) M)).1)) ∨
+     (findSym M.scopes v = none ∧ swPre fc v kl w many M =
+        (newVar v (fun i => if many then .vins i kl else .vint i kl) (popScope (buildExpr fc w (pushScope (.obj kl) M)).2),
+          (buildExpr fc w (pushScope (.obj kl) M)).1))) := by
+  have hs : (v == "self") = false := by simpa using hv
+  unfold swPre at hok
+  cases hc : (canonName v != v || lowerStr v == "sender") with
+  | true =>
+    exfalso
+    simp only [lookupVar, hc, if_true] at hok
+    have h1 : (buildExpr fc w (pushScope (.obj kl) M.fail)).2.ok = true := by
+      cases many <;> simp [newVar_ok] at hok <;> exact hok.1
+    have := buildExpr_ok_mono fc w _ h1
+    simp at this
+  | false =>
+    rw [lookupVar_eq hc] at hok
+    cases hf : findSym M.scopes v with
+    | some xv =>
+      simp only [hf] at hok
+      exact ⟨by simpa using hok, .inl ⟨xv, rfl, by simp [swPre, lookupVar_eq hc, hf]⟩⟩
+    | none =>
+      simp only [hf, hs] at hok
+      refine ⟨by cases many <;> simp [newVar_ok] at hok <;> exact hok.1, .inr ⟨rfl, ?_⟩⟩
+      cases many <;> simp [swPre, lookupVar_eq hc, hf, hs]
+
+theorem swPre_ok_mono {fc : FCtx} {v kl : String} {w : Expr} {many : Bool} {M : St}
+    (hok : (swPre fc v kl w many M).1.2.ok = true) (hv : v ≠ "self") : M.ok = true := by
+  have := buildExpr_ok_mono fc w _ (swPre_cases hok hv).1
+  simpa using this
+
 attribute [local irreducible] buildStmt buildStmts in
 mutual
 theorem buildStmt_ok_mono_core (fc : FCtx) : ∀ (s : Stmt) (prev : Option Nat) (st : St), coreS s = true →
@@ -1056,7 +1111,12 @@ theorem buildStmt_ok_mono_core (fc : FCtx) : ∀ (s : Stmt) (prev : Option Nat) 
   | .unrelate a b r ph, prev, st, hc, h => buildStmt_ok_mono_core0 (by simpa [coreS] using hc) h
   | .unrelateU a b r ph u, prev, st, hc, h => buildStmt_ok_mono_core0 (by simpa [coreS] using hc) h
   | .selFrom c v kl, prev, st, hc, h => buildStmt_ok_mono_core0 (by simpa [coreS] using hc) h
-  | .selFromW c v kl w, prev, st, hc, h => by simp [coreS, coreS0] at hc
+  | .selFromW c v kl w, prev, st, hc, h => by
+    simp only [coreS, Bool.and_eq_true, bne_iff_ne, ne_eq] at hc
+    rw [buildStmt_selFromW] at h
+    simp only [new_ok] at h
+    have := swPre_ok_mono h hc.1.1
+    simp at this; exact this.1.1
   | .selRel c v hd ch, prev, st, hc, h => by simp [coreS, coreS0] at hc
   | .selRelW c v hd ch w, prev, st, hc, h => by simp [coreS, coreS0] at hc
   | .forEach v sv b, prev, st, hc, h => by
@@ -1643,6 +1703,96 @@ theorem forEach_spec {fc : FCtx} {prev : Option Nat} {v sv : String} {b : Block}
       · rw [newVar_scopes, findSym_install hne]; simp
       · rw [newVar_scopes, findSym_install hne]; simp [hsvne]; simpa using hfy
 
+/-- `select any|many v from instances of KL where <expr>`: ACT_SMT, the where clause's values (accepted in the O_OBJ scope:
+    `selected`), the variable visible or declared AFTER the clause, ACT_FIW -/
+theorem selFromW_spec {fc : FCtx} {prev : Option Nat} {card v kl : String} {w : Expr} {st : St} (hv : v ≠ "self")
+    (hcard : lowerStr card = card) (hcw : coreE w = true) (hinv : Inv st)
+    (hprev : ∀ k, prev = some k → k < st.pop.length)
+    (hok : (buildStmt fc prev (.selFromW card v kl w) st).2.ok = true) : StmtSpec fc prev (.selFromW card v kl w) st := by
+  have hb := buildStmt_selFromW fc prev card v kl w st
+  generalize hG : (newSmt prev st).2.guard (v != "self" && fc.classes.contains kl) = G at hb
+  have hGpop : G.pop = st.pop ++ [.smt (curBlkD st.scopes) prev] := by rw [← hG]; simp
+  have hGsc : G.scopes = st.scopes := by rw [← hG]; simp
+  have hGok : G.ok = true → st.ok = true := by rw [← hG]; intro h; simp at h; exact h.1.1
+  have hPok : (swPre fc v kl w (isMany card) G).1.2.ok = true := by rw [hb] at hok; simpa using hok
+  obtain ⟨hWok, hcases⟩ := swPre_cases hPok hv
+  have hts0 : TS G.pop := by rw [hGpop]; simpa using newSmt_ts hinv hprev
+  have hsymG : SymOK G := hinv.sym.mono hGsc hGpop
+  obtain ⟨b0, hb0, hb0lt⟩ := hinv.blk
+  have hsymP : SymOK (pushScope (.obj kl) G) := by
+    intro n x hf
+    simp only [pushScope_scopes, findSym, List.lookup] at hf
+    exact hsymG n x hf
+  have E := buildExpr_spec fc w (pushScope (.obj kl) G) hcw hsymP (by simpa using hts0.tsv) hWok
+  obtain ⟨dW, hdW, hlW, _, hoW⟩ := E.grows
+  have hWsc : (buildExpr fc w (pushScope (.obj kl) G)).2.scopes = ⟨.obj kl, []⟩ :: st.scopes := by
+    rw [E.scopes]; simp [hGsc]
+  have hWts : TS (buildExpr fc w (pushScope (.obj kl) G)).2.pop := TS.expr (st := pushScope (.obj kl) G) (by simpa using hts0) E
+  have hWpop : (buildExpr fc w (pushScope (.obj kl) G)).2.pop = st.pop ++ (.smt (curBlkD st.scopes) prev :: dW) := by
+    rw [hdW]; simp [hGpop]
+  have hok0 : st.ok = true := hGok (by have := E.ok0; simpa using this)
+  have hS2sym : SymOK (popScope (buildExpr fc w (pushScope (.obj kl) G)).2) :=
+    hinv.sym.mono (by simp [hWsc]) (d := .smt (curBlkD st.scopes) prev :: dW) (by simp [hWpop])
+  have hprint : ∀ (mid : St) (x : Nat) (dx : List Row), SymOK mid → findSym mid.scopes v = some x →
+      mid.pop = (buildExpr fc w (pushScope (.obj kl) G)).2.pop ++ dx →
+      ∀ (ext : List Row) (fuel : Nat), szS (.selFromW card v kl w) ≤ fuel →
+      smtSub (mid.pop ++ [.fiw st.pop.length x kl (lowerStr card) (buildExpr fc w (pushScope (.obj kl) G)).1] ++ ext)
+        st.pop.length = some (.fiw st.pop.length x kl (lowerStr card) (buildExpr fc w (pushScope (.obj kl) G)).1) →
+      regenSmt (mid.pop ++ [.fiw st.pop.length x kl (lowerStr card) (buildExpr fc w (pushScope (.obj kl) G)).1] ++ ext)
+        fuel st.pop.length = genStmt (.selFromW card v kl w) := by
+    intro mid x dx hms hfx hmp ext fuel hf hs
+    simp only [szS] at hf
+    obtain ⟨f, rfl⟩ := fuel_succ (by omega : 1 ≤ fuel)
+    obtain ⟨bx, hbx⟩ := sym_row hms hfx ([.fiw st.pop.length x kl (lowerStr card) (buildExpr fc w (pushScope (.obj kl) G)).1] ++ ext)
+    rw [← List.append_assoc] at hbx
+    have hv' := E.regen (dx ++ [.fiw st.pop.length x kl (lowerStr card) (buildExpr fc w (pushScope (.obj kl) G)).1] ++ ext) f (by omega)
+    rw [← List.append_assoc, ← List.append_assoc, ← hmp] at hv'
+    simp only [hcard] at hs hbx hv' ⊢
+    simp only [regenSmt, hs, genStmt, regenVar_of hbx hv, hv']
+    simp
+  rcases hcases with ⟨xv, hfx, he⟩ | ⟨hfx, he⟩
+  · rw [he] at hb
+    simp only [] at hb
+    apply simple_spec _ _ hb hinv hok0
+    · exact ⟨dW, by simp [hWpop], by simp [szS]; omega, expr_rows_plain (fc := fc) (e := w) (st := st) hoW⟩
+    · simpa using hWts
+    · exact hS2sym
+    · simp [hWsc]
+    · rfl
+    · rfl
+    · rfl
+    · exact hprint _ xv [] hS2sym (by simpa [hWsc, hGsc] using hfx) (by simp)
+  · rw [he] at hb
+    simp only [newVar_fst, popScope_pop] at hb
+    have hne : (popScope (buildExpr fc w (pushScope (.obj kl) G)).2).scopes ≠ [] := by
+      simp [hWsc]; exact scopes_ne_of_curBlk hb0
+    have hsubf : ∀ i, (if isMany card then Row.vins i kl else Row.vint i kl).valOf = none ∧
+        (if isMany card then Row.vins i kl else Row.vint i kl).smtOf = none ∧
+        skeys (if isMany card then Row.vins i kl else Row.vint i kl) = [] := by
+      intro i; cases isMany card <;> simp [Row.valOf, Row.smtOf, skeys]
+    have hVsym := newVar_sym (n := v) (sub := fun i => if isMany card then Row.vins i kl else Row.vint i kl) hS2sym hne
+    apply simple_spec _ _ hb hinv hok0
+    · refine ⟨dW ++ [.var v (curBlkD st.scopes), if isMany card then .vins ((buildExpr fc w (pushScope (.obj kl) G)).2.pop.length) kl
+          else .vint ((buildExpr fc w (pushScope (.obj kl) G)).2.pop.length) kl], by simp [hWpop, hWsc, curBlkD, curBlk],
+        by simp [szS]; omega, ?_⟩
+      intro x hx
+      rcases List.mem_append.1 hx with h | h
+      · exact expr_rows_plain (fc := fc) (e := w) (st := st) hoW x h
+      · simp at h
+        rcases h with rfl | rfl
+        · simp [Row.smtOf, skeys]
+        · exact ⟨(hsubf _).2.1, (hsubf _).2.2⟩
+    · exact newVar_ts (by simpa using hWts) hsubf
+    · exact hVsym
+    · simp [curBlk_install, install_tail, hWsc, curBlk]
+    · rfl
+    · rfl
+    · rfl
+    · refine hprint _ _ [.var v (curBlkD st.scopes), if isMany card then .vins ((buildExpr fc w (pushScope (.obj kl) G)).2.pop.length) kl
+          else .vint ((buildExpr fc w (pushScope (.obj kl) G)).2.pop.length) kl] hVsym ?_ ?_
+      · rw [newVar_scopes, findSym_install hne]; simp
+      · simp [hWsc, curBlkD, curBlk]
+
 attribute [local irreducible] buildStmt buildStmts in
 mutual
 theorem buildStmt_spec (fc : FCtx) : ∀ (s : Stmt) (prev : Option Nat) (st : St), coreS s = true → Inv st →
@@ -1677,7 +1827,9 @@ theorem buildStmt_spec (fc : FCtx) : ∀ (s : Stmt) (prev : Option Nat) (st : St
     buildStmt_spec0 fc _ prev st (by simpa [coreS] using hc) hinv hprev hok
   | .selFrom c v kl, prev, st, hc, hinv, hprev, hok =>
     buildStmt_spec0 fc _ prev st (by simpa [coreS] using hc) hinv hprev hok
-  | .selFromW c v kl w, prev, st, hc, hinv, hprev, hok => by simp [coreS, coreS0] at hc
+  | .selFromW c v kl w, prev, st, hc, hinv, hprev, hok => by
+    simp only [coreS, Bool.and_eq_true, bne_iff_ne, ne_eq, beq_iff_eq] at hc
+    exact selFromW_spec hc.1.1 hc.1.2 hc.2 hinv hprev hok
   | .selRel c v hd ch, prev, st, hc, hinv, hprev, hok => by simp [coreS, coreS0] at hc
   | .selRelW c v hd ch w, prev, st, hc, hinv, hprev, hok => by simp [coreS, coreS0] at hc
   | .forEach v sv b, prev, st, hc, hinv, hprev, hok => by
